@@ -38,6 +38,11 @@ CLAIMED["C09"] = ("§3 C09",
     "Decides the parser's bailout discipline (every panic sets p.panicking first or is a reviewed unreachable assertion; entry points install the recover first), that recursion and iterative tree deepening are bounded by the nesting guard (two remaining unbounded loops are recorded as known findings), and that the escape alphabets and hex digit counts of literal.appendEscapedRune, literal.unquoteChar and scanner.scanEscape agree. It does not decide position containment nor that quoting an arbitrary string unquotes to the original.",
     "hash counts and multi-line indentation are value-level; assertion panics are excepted by function with an unreachability argument")
 
+CLAIMED["C02"] = ("§3 C02",
+    "parser rules of C09 + exhaustiveness of default-panic dispatchers over internal/core/adt interfaces + acquire/release pairing automata for evaluation frames + map-iteration order-leak classification and nondeterminism-source scan",
+    "Decides the parser bailout/recursion clauses (shared with C09), that every default-panic type-switch dispatcher of the evaluator, exporter, walker, dependency analysis and subsumption covers every implementor of the switched adt interface (or excepts it with a reachability reason), that PushState/PopState, PushArc/PopArc, pushOverlay/popOverlay, markDepth/unmarkDepth and incDepth/decDepth are balanced on every non-panicking path, and that no map-iteration order, global random source, wall-clock time or pointer text reaches output in the pipeline packages. It does not decide nil dereferences, index errors, evaluator recursion depth, or time/memory bounds.",
+    "value-dependent crashes are out of reach; comparator completeness of sorts is not decided")
+
 # properties not claimed (yet) -> reason
 NOT_APPLICABLE = {
     "C03": "value-level: the content is the cell values of the bound-simplification decision table over numbers; no shape rule separates a correct table from an off-by-one (DESIGN.md §4)",
